@@ -83,6 +83,49 @@ def online_gen(seed: int) -> Callable:
         plan = sess.plan
         ops.set_style(plan.get("style"))
         view = ops.View(sess.snap, sess.seams.fs.files, sess.recent)
+        step = None
+        last = plan["steps"][-1] if plan.get("steps") else None
+        if last is not None and "repeat_of" not in last and "twin_of" not in last and rs.random() < 0.5:
+            # the same call once more with one operand replaced by its near twin (a contract / list whose numbers agree with
+            # it to the digits that get printed): results must follow the numbers, not the printed form
+            import copy as _copy  # noqa: WPS433
+
+            for an, a in last["args"].items():
+                if "slot" in a:
+                    twins = [sl for sl in sorted(sess.snap) if sl != a["slot"] and sl[0] == a["slot"][0] and ops.near_twins(sess.snap[a["slot"]], sess.snap[sl])]
+                    if twins:
+                        step = _copy.deepcopy(last)
+                        step["args"][an] = {"slot": rs.choice(twins)}
+                        step["dst"] = None
+                        step["twin_of"] = len(plan["steps"]) - 1
+                        for key in ("env", "solver_fault", "write_fault"):
+                            step.pop(key, None)
+                        return step
+        if sess.history and rs.random() < 0.2:
+            # repeat an EARLIER call of this session verbatim, if its operands are canonically what they were then
+            # (older calls preferred: more happens in between)
+            cands = []
+            for k, h in enumerate(sess.history):
+                same = True
+                for an, a in h["step"]["args"].items():
+                    if "slot" in a and sess.snap[a["slot"]] != h["can"][an]:
+                        same = False
+                    elif "clone" in a and sess.snap[a["clone"]] != h["can"][an]:
+                        same = False
+                    elif "slots" in a and {"L": [sess.snap[x] for x in a["slots"]]} != h["can"][an]:
+                        same = False
+                if same:
+                    cands.append(k)
+            if cands:
+                k = cands[int(len(cands) * rs.random() ** 2)]
+                import copy as _copy  # noqa: WPS433
+
+                step = _copy.deepcopy(sess.history[k]["step"])
+                step["dst"] = None
+                step["repeat_of"] = k
+                for key in ("env", "solver_fault", "write_fault"):
+                    step.pop(key, None)
+                return step
         step = ops.gen_step(rs, view, plan["ops"], plan["weights"])
         sw = plan["swarm"]
         evs = []
